@@ -425,6 +425,37 @@ def law_sweep(ctx, mc, atm, only=None):
                 if not (gen >= 0 and abs(Fraction(gen) - exg) <= Fraction((n + 32) * EPS * mag(rho, z) + 1e-300)):
                     bad("integrate_water_vapor:general-integral", f"IWV(vmr, p, T, z) = {gen!r} but int rho_v dz = {float(exg)!r} (n = {n})",
                         dict(case, T=small(T), z=small(z)))
+        # arrays of rank >= 2: both forms integrate every profile (lane) along the chosen axis, as the 1-d call does
+        for shape in ((5, 3), (4, 4), (3, 2, 6), (2, 5, 5)):
+            for axis in range(-len(shape), len(shape)):
+                nl = shape[axis]
+                if nl < 2:
+                    continue
+                pl = pressure_grid(rng, nl, top=200e2)
+                sh1 = [1] * len(shape)
+                sh1[axis] = nl
+                P = np.broadcast_to(pl.reshape(sh1), shape).copy() * (1 + 0.01 * rng.random(shape))
+                P = np.moveaxis(-np.sort(-np.moveaxis(P, axis, 0), axis=0), 0, axis)          # decreasing along the axis
+                X = rng.uniform(0, 0.04, shape)
+                Tt = 220 + 70 * rng.random(shape)
+                Z = np.moveaxis(np.cumsum(rng.uniform(50, 900, np.moveaxis(P, axis, 0).shape), axis=0), 0, axis)
+                for form, args in (("hydrostatic", (X, P)), ("general", (X, P, Tt, Z))):
+                    case = {"law": "iwv-lanes", "form": form, "shape": list(shape), "axis": axis}
+                    try:
+                        got = np.asarray(atm.integrate_water_vapor(*args, axis=axis), dtype=float)
+                    except Exception as e:  # noqa
+                        bad("integrate_water_vapor:lanes-raises", f"{form} form on a field of shape {shape} along axis {axis} raised "
+                            f"{type(e).__name__}: {e}", case)
+                        continue
+                    lanes = [np.moveaxis(a, axis, -1).reshape(-1, nl) for a in args]
+                    want = np.array([float(atm.integrate_water_vapor(*[l[i] for l in lanes])) for i in range(lanes[0].shape[0])])
+                    want = want.reshape(np.moveaxis(X, axis, -1).shape[:-1])
+                    evals[0] += want.size
+                    if got.shape != want.shape or not np.all(np.abs(got - want) <= 1e-12 * np.maximum(np.abs(want), 1e-300) + 1e-15):
+                        bad("integrate_water_vapor:lanes", f"{form} form on a field of shape {shape} along axis {axis}: result of shape "
+                            f"{got.shape} differs from the per-profile calls (shape {want.shape}" +
+                            (f", max relative difference {float(np.max(np.abs(got - want) / np.maximum(np.abs(want), 1e-300))):.3g})"
+                             if got.shape == want.shape else ")"), case)
         for bad_args in (("T",), ("z",)):
             try:
                 atm.integrate_water_vapor(np.array([0.01, 0.0]), np.array([1e5, 5e4]), **{bad_args[0]: np.array([280.0, 250.0])})
@@ -602,6 +633,19 @@ def law_sweep(ctx, mc, atm, only=None):
                         bad("pressure2height:isothermal-top-first", f"isothermal column at {T0:.2f} K given top first (increasing pressure, n = {n}): "
                             f"heights {small(zr)} do not follow (R T / g) ln(p0 / p) = {small(anar)} / are not the reversed column "
                             f"shifted by the reference level", dict(case, T0=T0))
+                # the same grid in whole pascals handed over with an INTEGER dtype (np.arange grids): the same heights
+                if p.size > 1 and r == 0:
+                    pint = np.unique(np.round(p).astype(np.int64))[::-1]
+                    if pint.size > 1:
+                        zf = np.asarray(call(atm.pressure2height, pint.astype(float), np.full(pint.size, T0)), dtype=float)
+                        zn = np.asarray(call(atm.pressure2height, pint, np.full(pint.size, T0)), dtype=float)
+                        zd = np.asarray(call(atm.pressure2height, pint), dtype=float)
+                        zdf = np.asarray(call(atm.pressure2height, pint.astype(float)), dtype=float)
+                        evals[0] += 2
+                        if zn.shape != zf.shape or not np.all(np.abs(zn - zf) <= 1e-9 * np.maximum(np.abs(zf), 1.0)) \
+                                or not np.all(np.abs(zd - zdf) <= 1e-9 * np.maximum(np.abs(zdf), 1.0)):
+                            bad("pressure2height:integer-grid", f"pressure2height of an int64 pressure grid ({pint.size} levels) differs from "
+                                f"the same grid as float64 by up to {float(np.max(np.abs(zn - zf))):.3g} m", dict(case, T0=T0))
                 zs = np.asarray(call(atm.pressure2height, p))
                 zt = np.asarray(call(atm.pressure2height, p, call(atm.standard_atmosphere, p, coordinates="pressure")))
                 if zs.shape != zt.shape or not np.all(np.abs(zs - zt) <= 1e-12 * np.maximum(np.abs(zt), 1.0)):
